@@ -1256,9 +1256,10 @@ class PW(Meta):
 
 
 # class -> (fields, accepted kind tuples); every other kind tuple must be REJECTED when the dtype is announced
+# (FloorDivide: complex was accepted on the pinned commit although numpy has no complex floor_divide: repaired, see known_findings.json)
 POINTWISE = {
     'Greater': (('x', 'y'), [(1, 1), (2, 2)]), 'Less': (('x', 'y'), [(1, 1), (2, 2)]), 'Equal': (('x', 'y'), [(k, k) for k in range(4)]),
-    'FloorDivide': (('dividend', 'divisor'), [(1, 1), (2, 2), (3, 3)]), 'Mod': (('dividend', 'divisor'), [(1, 1), (2, 2)]),
+    'FloorDivide': (('dividend', 'divisor'), [(1, 1), (2, 2)]), 'Mod': (('dividend', 'divisor'), [(1, 1), (2, 2)]),
     'Minimum': (('x', 'y'), [(a, b) for a in range(3) for b in range(3)]), 'Maximum': (('x', 'y'), [(a, b) for a in range(3) for b in range(3)]),
     'LogicalNot': (('x',), [(0,)]), 'Negative': (('arg',), [(1,), (2,), (3,)]), 'Absolute': (('arg',), [(1,), (2,), (3,)]),
     'Real': (('arg',), [(3,)]), 'Imag': (('arg',), [(3,)]), 'Conjugate': (('arg',), [(3,)]),
@@ -1269,7 +1270,7 @@ POINTWISE = {
 }
 # FloorDivide of complex operands is ACCEPTED by FloorDivide.dtype (Mod rejects it) but numpy has no complex floor_divide: evaluation
 # raises TypeError.  Candidate defect (notes/C06-c06b.md); the configuration is parked so that the check stays green.
-PARKED = [('FloorDivide', (3, 3))]  # + SignBool (Sign of a boolean array), see contracts()
+PARKED = []  # FloorDivide of complex operands: repaired (known_findings.json)
 
 
 def pointwise_contracts(parked=False):
@@ -1324,8 +1325,9 @@ def meta_contracts():
 def contracts():
     import os
     cs = meta_contracts() + pointwise_contracts() + arguments_contracts() + function_array_contracts()
-    if os.environ.get('VERIF_C06B_PARKED'):  # experiments: the parked contracts fail on the unchanged tree (candidate defects)
-        cs += pointwise_contracts(parked=True) + function_array_contracts(parked=True) + [SignBool(rank=1, kind='bool')]
+    cs += [SignBool(rank=1, kind='bool')]  # fails on the unchanged tree: recorded KNOWN FINDING (known_findings.json)
+    if os.environ.get('VERIF_C06B_PARKED'):  # experiments only: these demand MORE than the property says (rejection of negative lengths at construction), see DESIGN 9.2
+        cs += function_array_contracts(parked=True)
     return cs
 
 
@@ -1370,8 +1372,8 @@ NOT_COVERED = [
     '_optimized_for_numpy replacements',
     'C06b: function.Array subclasses (every constructor that fills the shape/dtype/arguments tables: C07 shapes, C13 arguments); lowering agreement '
     '(debug_flags.lower assertions); clashing arguments are rejected by function._join_arguments (C13)',
-    'C06b: PARKED (fail on the unchanged tree, candidate defects, notes/C06-c06b.md): FloorDivide of complex operands announces complex but numpy has no such loop; '
-    'Sign of a boolean array announces bool but numpy.sign has no such loop; function.Array.__init__ accepts negative lengths and arbitrary dtype objects',
+    'C06b: Sign of a boolean array announces bool but numpy.sign has no such loop (recorded known finding); function.Array.__init__ accepts negative lengths and arbitrary dtype objects '
+    '(the error surfaces at lowering; rejection at construction is not demanded by the property: contracts kept out of the check)',
 ]
 
 
